@@ -288,7 +288,7 @@ def tr_mvar(tags):
         guard = re.search(r"if let Some\((\w+)\)\s*=\s*(?:&mut\s+)?([\w.]+)", arm)
         prefix = ""
         if guard:
-            prefix = guard.group(2).replace(".", "_") + "__"
+            prefix = guard.group(2).replace(".", "_") + "_"
         tgt, kind, srcf = asg[0]
         if pats[0] not in tags:
             raise Broken("tag::%s not found in src/tag.rs" % pats[0])
